@@ -20,7 +20,7 @@ from pyxsym.values import CVector, VecPtr
 
 REPLAY = ("replay_drivers.C06", "replay")
 SPECIES = ["A", "B", "C"]
-FACETS = ["step", "conservation", "invariant", "absorbing", "loop", "init"]
+FACETS = ["feasible", "invariant", "absorbing", "loop", "init"]      # oracle-free consequences of the step relations
 
 
 def _report(c, cond, label, sig, rp=None, syms=None):
@@ -189,7 +189,7 @@ def check(tier):
     # the four loops
     ssa_cases = C05.cases(tier)
     for cse in ssa_cases:
-        ck.add("ssa-step/S%dR%dT%d/ci%d" % cse, "harness.C05", "step_job", dict(cases=[cse]))
+        ck.add("ssa-step/S%dR%dT%d/ci%d" % cse, "harness.C05", "step_job", dict(cases=[cse], facets=["init", "feasible", "absorbing", "invariant"]))
     sizes = [(2, 2, 2, 2)] if tier == "quick" else [(2, 2, 2, 2), (2, 2, 3, 3), (3, 2, 3, 2)]
     for (S, R, T, C) in sizes:
         for ci in range(T):
@@ -238,6 +238,7 @@ def check(tier):
             ck.add_mutant(name, m, "safe", "harness.C06", "safe_job", dict(cases=[(2, 1, -2, 2), (1, 1, -3, 3)]))
         else:
             ck.add_mutant(name, m, "ma", "harness.C06", "massaction_job", dict(cases=mc[:12]))
+    ck.oracle_selftest = [{'kind': 'ssa'}, {'kind': 'delay'}]
     ck.validate = ['delay_ssa', 'ssa']
     ck.run()
     return ck.finish(replay=REPLAY)
